@@ -89,6 +89,28 @@ func FamilyOddities() []*Conv {
 		add(fmt.Sprintf("enum_exclude_pattern_%d", i), "source PFXIn", "PFXOut", io, []string{"enum:exclude " + pat}, nil)
 		add(fmt.Sprintf("context_regex_%d", i), "source PFXIn", "PFXOut", io, []string{"arg:context:regex " + pat}, nil)
 	}
+	// defined array types where no rule applies: a diagnostic
+	arr := "type PFXHash [4]byte\ntype PFXHash2 [4]byte\ntype PFXGrid [2][2]int\n"
+	add("defined_array_to_itself", "source PFXHash", "PFXHash", arr, nil, nil)
+	add("defined_array_to_defined_array", "source PFXHash", "PFXHash2", arr, nil, nil)
+	add("defined_array_fields", "source struct{ H PFXHash; G PFXGrid; U [3]int }", "struct{ H PFXHash2; G PFXGrid; U [4]int }", arr, nil, nil)
+	add("defined_array_elements", "source []PFXHash", "map[string]*PFXHash2", arr, nil, nil)
+	// a DAG of defined map types, 24 levels, every level used as key and as value of the next: analysed in time and
+	// memory that is linear in the number of types (2^24 when finished types are not shared)
+	{
+		dag := "type PFXD0 struct{ V int }\n"
+		for i := 1; i <= 24; i++ {
+			dag += fmt.Sprintf("type PFXD%d map[*PFXD%d]*PFXD%d\n", i, i-1, i-1)
+		}
+		add("dag_of_defined_map_types", "source PFXD24", "PFXD24", dag, nil, nil)
+	}
+	// self-referential types in update methods under skipCopySameType, with and without field settings: terminates
+	selfref := "type PFXNode struct {\n\tName string\n\tSecret string\n\tNext *PFXNode\n\tKids []PFXNode\n\tByName map[string]*PFXNode\n}\n"
+	add("update_selfref_skipcopy_field_settings", "source *PFXNode, target *PFXNode", "", selfref, []string{"skipCopySameType"}, []string{"update target", "ignore Secret"})
+	add("update_selfref_skipcopy_zero_settings", "source PFXNode, target *PFXNode", "", selfref, []string{"skipCopySameType"}, []string{"update target", "update:ignoreZeroValueField"})
+	add("update_selfref_field_settings", "source *PFXNode, target *PFXNode", "", selfref, nil, []string{"update target", "ignore Secret"})
+	add("clone_selfref_skipcopy_field_settings", "source *PFXNode", "*PFXNode", selfref, []string{"skipCopySameType"}, []string{"ignore Secret"})
+	add("clone_value_selfref_skipcopy_field_settings", "source PFXNode", "PFXNode", selfref, []string{"skipCopySameType"}, []string{"map Name Secret"})
 	add("update_ignorezero_struct_field_not_comparable", "source PFXIn, target *PFXOut", "", "type PFXN struct{ L []int }\ntype PFXIn struct{ N PFXN }\ntype PFXOut struct{ N PFXN }\n", nil, []string{"update target", "update:ignoreZeroValueField:struct"})
 	add("ignoremissing_inline_struct_map_value", "source map[string]struct{ A int }", "map[string]struct{ B int }", "", []string{"ignoreMissing"}, nil)
 	add("embedded_alias_field_in_unnamed_struct", "source struct{ PFXAlias }", "struct{ PFXAlias }", "type PFXBase struct{ V int }\ntype PFXAlias = PFXBase\n", nil, nil)
